@@ -32,7 +32,7 @@ Print Assumptions C14_bitmap_decode_result_wellformed.
    declared length is 5 whatever follows in memory, and accepted with length 11 *)
 Example C14_bitmap_example :
   fst (bm_decode [0; 3; 0; 0; 0; 1; 0; 2; 0; 3; 0] 5) = None /\
-  (exists s, fst (bm_decode [0; 3; 0; 0; 0; 1; 0; 2; 0; 3; 0] 11) = Some s /\ bm_to_array s = [1; 2; 3]) /\
+  option_map bm_to_array (fst (bm_decode [0; 3; 0; 0; 0; 1; 0; 2; 0; 3; 0] 11)) = Some [1; 2; 3] /\
   fst (bm_decode [7; 5; 0; 0; 0] 5) = None /\
   fst (bm_decode [0; 2; 0; 0; 0; 2; 0; 1; 0] 9) = None.
-Proof. vm_compute. repeat split; try reflexivity. eexists. split; reflexivity. Qed.
+Proof. vm_compute. repeat split; reflexivity. Qed.
